@@ -33,6 +33,7 @@ var anchored = []string{
 	"component/kmscrypto/kms/localkms/localkms_writer.go",
 	"component/kmscrypto/kms/localkms/privkey_import.go",
 	"pkg/didcomm/protocol/messagepickup/service.go",
+	"pkg/didcomm/protocol/mediator/service.go",
 	"pkg/didcomm/transport/ws/pool.go",
 	"pkg/wallet/session.go",
 	"pkg/didcomm/common/service/action.go",
@@ -523,6 +524,8 @@ func main() {
 
 	var fns []*fn
 
+	var sends []string // channel sends: function, channel expression, inside a select with an alternative?
+
 	mutable := map[string]bool{}
 
 	for _, d := range dirs {
@@ -630,6 +633,30 @@ func main() {
 				w.f = &fn{name: name, exported: ast.IsExported(fd.Name.Name)}
 				w.block(fd.Body.List, nil)
 
+				// channel sends of the function (closures included): a send that is the communication of a select
+				// clause with at least one other clause can be abandoned; a plain send waits for a receiver for good
+				inSelect := map[ast.Stmt]bool{}
+
+				ast.Inspect(fd.Body, func(n ast.Node) bool {
+					if sel, ok := n.(*ast.SelectStmt); ok && len(sel.Body.List) >= 2 {
+						for _, cl := range sel.Body.List {
+							if cc, ok := cl.(*ast.CommClause); ok && cc.Comm != nil {
+								inSelect[cc.Comm] = true
+							}
+						}
+					}
+
+					return true
+				})
+
+				ast.Inspect(fd.Body, func(n ast.Node) bool {
+					if snd, ok := n.(*ast.SendStmt); ok {
+						sends = append(sends, fmt.Sprintf("(%s, %s, %v)", coqStr(name), coqStr(exprStr(snd.Chan)), inSelect[snd]))
+					}
+
+					return true
+				})
+
 				// constructors (plain functions New…/new…) initialise an object nobody else can reach yet
 				if fd.Recv == nil && (strings.HasPrefix(fd.Name.Name, "New") || strings.HasPrefix(fd.Name.Name, "new")) {
 					w.f.accs, w.f.calls = nil, nil
@@ -718,7 +745,8 @@ func main() {
 			strings.Join(accs, "; "), strings.Join(calls, "; "), strings.Join(scalls, "; "), strings.Join(acqs, "; "), sep)
 	}
 
-	b.WriteString("].\n")
+	b.WriteString("].\n\n(* every channel send statement of the anchored files: function, channel, inside a select with an alternative *)\n")
+	b.WriteString("Definition chan_sends : list (string * string * bool) := [\n  " + strings.Join(sends, ";\n  ") + "\n].\n")
 
 	if err := os.WriteFile(out, []byte(b.String()), 0o600); err != nil {
 		fmt.Fprintln(os.Stderr, err)
